@@ -230,10 +230,13 @@ impl Engine for DirEngine {
                     }
                     if let Some(p) = problem {
                         let implicit = implicit_dirs(&s.tree, &s.members);
-                        let only_missing = match (&want, &got_ids) { (Ok(wv), Ok(gv)) => gv.iter().all(|g| wv.contains(g)) && { let mut g = gv.clone(); g.sort(); g.dedup(); g.len() == gv.len() }, (Ok(_), Err(())) => shown == "err nf", _ => false };
+                        // explained by directories without own member: nothing wrong is listed, things are only missing
+                        let only_missing = match (&want, &got_ids) {
+                            (Ok(wv), Ok(gv)) => gv.iter().all(|g| wv.contains(g) && (w[0] != "ic" || cached.contains(&(k, g.clone())))) && { let mut g = gv.clone(); g.sort(); g.dedup(); g.len() == gv.len() },
+                            (Ok(_), Err(())) => shown == "err nf",
+                            _ => false };
                         let cls = if s.is_archive() && s.tree.is_empty() && id.is_empty() && shown == "err nf" { "archive-empty-root-missing" }
-                            else if s.is_archive() && !implicit.is_empty() && only_missing && w[0] != "ic" { "archive-implicit-dir-missing" }
-                            else if s.is_archive() && !implicit.is_empty() && only_missing && shown == "err nf" { "archive-implicit-dir-missing" }
+                            else if s.is_archive() && !implicit.is_empty() && only_missing { "archive-implicit-dir-missing" }
                             else { "dir-ids-mismatch" };
                         let msg = format!("{cls} {} source, {} {} exts={exts:?} id={id:?}: {p}", s.kind, w[0], if rec_mode { "load_rec_dir" } else { "load_dir" });
                         if cls == "dir-ids-mismatch" { fresh.push(msg) } else { known.push(msg) }
